@@ -18,7 +18,7 @@
 (***************************************************************************)
 EXTENDS Integers, FiniteSets, Bitwise
 
-CONSTANT LANES
+CONSTANT LANES       \* at most 7: the NEON word has 4*LANES bits and TLC integers are 32-bit
 
 Pow2(n) == 2 ^ n
 BitAt(m, i) == (m \div Pow2(i)) % 2
